@@ -40,7 +40,8 @@ REQUIRED_MONITORS = ["matrix-vs-dense-reference", "vector-vs-dense-reference", "
                      "trilinear-contraction", "with-element-same-domain"]
 REQUIRED_REACH = ["kwarg:updated-in-place", "kwarg:overrides-default", "basis:cell", "basis:cell-subset", "basis:facet-boundary", "basis:facet-subset",
                   "basis:facet-interior-side1", "basis:interior-side0", "basis:interior-side1", "trial!=test",
-                  "kwarg:dofvector", "kwarg:discretefield", "kwarg:rawarray", "kwarg:scalar", "coef:n", "coef:h", "coef:x"]
+                  "kwarg:dofvector", "kwarg:discretefield", "kwarg:rawarray", "kwarg:scalar", "coef:n", "coef:h", "coef:x",
+                  "bare-parameter-integrands"]
 
 FIELDS = ("value", "grad", "div", "curl", "hess")
 
@@ -457,6 +458,56 @@ def trilinear(ctx, k):
     ctx.nontrivial("trilinear", kind, names)
 
 
+def bare_fields(ctx, k):
+    """Integrands that return one of their parameters as it is (w['f'], w.h, w.x[0], w.n[0]): the scalar equals the
+    sum of field * dx, on every evaluation, and the field passed by the caller / kept by the basis enters a later
+    linear form unchanged ("extra parameters enter all three identically")."""
+    import skfem
+    rng = ctx.rng()
+    kind = ("tri", "quad", "line", "tet", "hex")[k % 5]
+    ename = {"tri": "ElementTriP2", "quad": "ElementQuad2", "line": "ElementLineP2", "tet": "ElementTetP1", "hex": "ElementHex1"}[kind]
+    mc = G.first_order(rng, kind)
+    mesh = mc.mesh
+    if mesh.t.shape[1] > 40:
+        S = np.sort(rng.choice(mesh.t.shape[1], size=40, replace=False))
+        p, t = G.clean(np.asarray(mesh.p), np.asarray(mesh.t)[:, S].astype(np.int64))
+        mesh = type(mesh)(p, t)
+    facet = (k // 5) % 2 == 1 and kind != "line"
+    mk = (lambda: skfem.FacetBasis(mesh, EL.by_name(ename).make())) if facet else (lambda: skfem.CellBasis(mesh, EL.by_name(ename).make()))
+    basis = mk()
+    dx = np.array(basis.dx)
+    z = rng.standard_normal(basis.N)
+    f = basis.interpolate(z)
+    fv = np.array(f).copy()
+    tag = dict(kind=kind, elem=ename, basis="facet" if facet else "cell", desc=mc.desc)
+    ref = float((fv * dx).sum())
+    sc = float((np.abs(fv) * dx).sum()) + 1e-300
+    for rep in range(2):
+        J = skfem.Functional(lambda w: w["f"]).assemble(basis, f=f)
+        ctx.close("functional-vs-own-sum", J, ref, rtol=1e-12, scale=sc, mech="bare-parameter-functional:field", evaluation=rep, **tag)
+    ctx.check("kwarg-spellings-bitwise", np.array_equal(np.array(f), fv), mech="caller-field-modified-by-functional", **tag)
+    b = skfem.LinearForm(lambda v, w: w["f"] * v).assemble(basis, f=f)
+    M = skfem.BilinearForm(lambda u, v, w: u * v).assemble(mk())
+    ctx.close("vector-vs-dense-reference", b, M @ z, rtol=1e-10, scale=float((abs(M) @ np.abs(z)).max()) + 1e-300,
+              mech="field-reused-after-functional:linear-form", **tag)
+    # default fields kept by the basis
+    defaults = [("h", lambda w: w.h), ("x0", lambda w: w.x[0])] + ([("n0", lambda w: w.n[0])] if facet and mesh.dim() > 1 else [])
+    for nm, fn in defaults:
+        fresh = mk()
+        refd = skfem.Functional(lambda w, fn=fn: fn(w) * 1.0).assemble(fresh)       # allocates: never in place
+        scd = abs(float(skfem.Functional(lambda w, fn=fn: np.abs(fn(w)) * 1.0).assemble(fresh))) + 1e-300
+        for rep in range(2):
+            Jd = skfem.Functional(fn).assemble(basis)
+            ctx.close("functional-vs-own-sum", Jd, refd, rtol=1e-12, scale=scd, mech=f"bare-parameter-functional:w.{nm}",
+                      evaluation=rep, **tag)
+        bd = skfem.LinearForm(lambda v, w, fn=fn: fn(w) * v).assemble(basis)
+        bf = skfem.LinearForm(lambda v, w, fn=fn: fn(w) * v).assemble(fresh)
+        ctx.close("vector-vs-dense-reference", bd, bf, rtol=1e-12, scale=float(np.abs(bf).max()) + 1e-300,
+                  mech=f"default-field-changed-by-earlier-functional:w.{nm}", **tag)
+    ctx.reached("bare-parameter-integrands")
+    ctx.nontrivial("bare", kind, facet)
+
+
 def fam(kind):
     return lambda ctx, k: one_case(ctx, k, kind)
 
@@ -469,3 +520,4 @@ def ncases(kind, mult):
 FAMILIES = [Family("asm-" + kd, fam(kd), ncases(kd, m), ncases(kd, m), budget={"quick": 40, "thorough": 600})
             for kd, m in (("line", 1), ("tri", 2), ("quad", 2), ("tet", 1), ("hex", 1), ("wedge", 1))]
 FAMILIES.append(Family("trilinear", trilinear, 8, 160))
+FAMILIES.append(Family("bare-fields", bare_fields, 10, 200))
